@@ -92,6 +92,8 @@ def enc(x, ident=None):
             return V("bool", [int(x)])
         if isinstance(x, (int, np.integer, float, np.floating)):
             v = _small_int(x)
+            if v is None and isinstance(x, (float, np.floating)) and np.isfinite(x) and float(x * 2).is_integer() and abs(x) < 2 ** 30:
+                return V("num", [int(np.floor(x))], "+half")        # id + 1/2: the id stays readable, the fraction is part of the number
             return V("num", [v]) if v is not None else V("num", [], repr(float(x)))
         if isinstance(x, str):
             return V("str", [], x)
@@ -126,7 +128,7 @@ def enc_map(d, ident=None):
 # =====================================================================================
 ARRAY_KINDS = ["a1", "a2", "af", "ao", "a3"]
 SCALAR_KINDS = ["int", "float", "str", "none", "list", "tuple", "arr0", "term"]
-NUMERIC_RETS = ["int", "float", "npint", "vec", "list"]
+NUMERIC_RETS = ["int", "float", "npint", "vec", "list", "intfloat"]
 OBJECT_RETS = ["term", "ragged", "mixed"]
 
 
@@ -179,6 +181,11 @@ def build_input(spec, j):
     return obj, dict(arr=k in ARRAY_KINDS, rows=rows, v=enc(obj))
 
 
+def eff_ret(sc):
+    """a fraction is not representable in an integer dtype the caller ASKED for: no fractional returns there"""
+    return "int" if sc["ret"] == "intfloat" and sc.get("dt") == "int64" else sc["ret"]
+
+
 def make_ret(kind, k):
     if kind == "int":
         return k
@@ -186,6 +193,8 @@ def make_ret(kind, k):
         return float(k)
     if kind == "npint":
         return np.int64(k)
+    if kind == "intfloat":          # the rows do not share one numeric type: an int first, then a fraction (numpy promotes)
+        return k if k % 2 == 0 else k + 0.5
     if kind == "vec":
         return np.array([k, k + 5000])
     if kind == "list":
@@ -268,7 +277,7 @@ def record_vec_alone(sc):
                 lg["oid"] = j + 1
                 objs.append(o)
                 logs.append(lg)
-        op = SymOp(sc["ret"], ident, 100 * (rep + 1))
+        op = SymOp(eff_ret(sc), ident, 100 * (rep + 1))
         if sc.get("shared"):
             if "op" in shared:
                 op = shared["op"]
@@ -390,7 +399,7 @@ def record_vec_model(sc):
         else:
             raise ValueError(p)
         parents.append(n)
-    opv = SymOp(sc["ret"], None, 1000)
+    opv = SymOp(eff_ret(sc), None, 1000)
     opw = SymOp("int", None, 5000)
     fv = elfi.tools.vectorize(opv, constants=sc["mask"], dtype=dtype_arg(sc["dt"]))
     fw = elfi.tools.vectorize(opw)
